@@ -378,9 +378,12 @@ def _on_cycle(d, cands):
 
 
 def _target(t):
-    """def path a call terminator resolves to (the impl method for a resolved trait call)."""
+    """def path a call terminator resolves to (the impl method for a resolved trait call).  A call
+    dispatched at run time (`dyn Trait`) has no single target: it is never inlined."""
     f = t["f"]
     r = f.get("res")
+    if f.get("virtual") or (isinstance(r, dict) and r.get("inst") == "virtual") or str(f.get("self_ty") or "").startswith("dyn "):
+        return "<virtual>"
     if isinstance(r, dict) and r.get("local") and r.get("path"):
         return r["path"]
     return f["path"]
